@@ -104,7 +104,12 @@ func newOperator(expr parser.Expr, storage *engstore.SelectorPool, opts *query.O
 				nextOperators[i] = next
 			}
 
-			return function.NewHistogramOperator(model.NewVectorPool(stepsBatch), e.Args, nextOperators, stepsBatch)
+			op, err := function.NewHistogramOperator(model.NewVectorPool(stepsBatch), e.Args, nextOperators, stepsBatch)
+			if err != nil {
+				return nil, err
+			}
+			// Histograms of different metrics lose what tells them apart with the name.
+			return exchange.NewDuplicateLabelCheck(op, false), nil
 		}
 
 		// timestamp() returns the timestamp of the samples a selector selects. Step
